@@ -180,62 +180,8 @@ func runC02(c *eng.Ctx, thorough bool) {
 		c.Floor(f, "AllowOperation call", len(eng.Calls(f, `policy\.\(\*ACL\)\.AllowOperation$`)), 1)
 	}
 
-	// ---------------- C02.2 token liveness on every lookup path
-	if f := c.Fn("vault.(*TokenStore).lookupInternal"); f != nil {
-		c.Clause("R2", "C02.2")
-		var sinks []ssa.Instruction
-		for _, r := range eng.NonNilResultReturns(f, 0) {
-			ret := r.(*ssa.Return)
-			// delegated batch-token return is covered by lookupBatchToken below
-			if ok, _, _ := eng.OriginsMatch(ret.Results[0], `^call:vault\.\(\*TokenStore\)\.lookupBatchToken#0$`); ok {
-				continue
-			}
-			if _, isPhi := ret.Results[0].(*ssa.Phi); isPhi {
-				continue // handled through the phi edges below
-			}
-			sinks = append(sinks, r)
-		}
-		retEdges := eng.PhiEdgeSinks(f, "ret", func(v ssa.Value) bool { return !eng.IsNilConst(v) })
-		c.Floor(f, "ret = entry assignments", len(retEdges), 1)
-		all := append(append([]ssa.Instruction{}, sinks...), retEdges...)
-		c.Floor(f, "entry-returning exits", len(all), 2)
-		c.Cut(f, "exit returning a token entry", all, eng.Or(eng.G(f, `\.NumUses < 0$`, false), eng.G(f, `^tainted$`, true)), nil)
-		c.Cut(f, "ret = entry (expiring token)", retEdges, eng.Or(eng.G(f, `^time\.\(Time\)\.Before\(\)$`, false), eng.G(f, `^tainted$`, true)), nil)
-		c.Cut(f, "ret = entry (expiring token)", retEdges, eng.G(f, `FetchLeaseTimesByToken\(\)#0 == nil$`, false), nil)
-		c.Cut(f, "ret = entry (expiring token)", retEdges, eng.GCallOK(f, `vault\.\(\*ExpirationManager\)\.FetchLeaseTimesByToken$`), nil)
-		// the non-expiring fast path requires the root policy and TTL == 0
-		c.Cut(f, "fast-path return of the entry", sinks, eng.G(f, `\.TTL == 0$`, true), nil)
-		c.Cut(f, "fast-path return of the entry", sinks, eng.G(f, `\.Policies\[0\] == "root"$`, true), nil)
-		// le == nil: revoke and do not return the entry
-		c.Clause("R4", "C02.2")
-		noLease := eng.CondEdges(f, `FetchLeaseTimesByToken\(\)#0 == nil$`, true)
-		c.NilResultOnEdges(f, "token has no lease", noLease, 0, "token entry")
-		succ := eng.SuccessReturns(f, 1)
-		revoke := instrsOf(eng.Calls(f, `vault\.\(\*ExpirationManager\)\.Revoke$`))
-		if len(noLease) > 0 {
-			if h := eng.Reach(eng.Query{Fn: f, StartEdges: noLease, Barriers: revoke, Target: eng.IsTarget(succ)}); h != nil {
-				c.Violation(f, "on{token has no lease} revoke before nil-error return", h.Instr.Pos(), "a nil-error return is reachable for a lease-less expiring token without calling expiration.Revoke", h.Witness)
-			} else {
-				c.OK(f, "on{token has no lease} revoke before nil-error return", revoke[0].Pos(), "every nil-error return on the no-lease arm is preceded by expiration.Revoke")
-			}
-		}
-		// the compared time is the lease's expire time
-		c.Clause("R5", "C02.2")
-		for _, b := range eng.Calls(f, `^time\.\(Time\)\.Before$`) {
-			c.Prov(f, "expiry compared", b, b.Common().Args[0], `FetchLeaseTimesByToken.*ExpireTime`)
-			c.Prov(f, "expiry compared with now", b, b.Common().Args[1], `^call:time\.Now$`)
-		}
-	}
-	if f := c.Fn("vault.(*TokenStore).lookupBatchToken"); f != nil {
-		c.Clause("R2", "C02.2")
-		sinks := eng.NonNilResultReturns(f, 0)
-		c.Floor(f, "entry-returning exits", len(sinks), 1)
-		c.Cut(f, "return of a batch token entry", sinks, eng.G(f, `^time\.\(Time\)\.After\(\)$`, false), nil)
-		c.Cut(f, "return of a batch token entry", sinks, eng.GCallOK(f, `vault\.\(\*TokenStore\)\.lookupBatchTokenInternal$`), nil)
-		c.Cut(f, "return of a batch token entry", sinks, eng.Or(
-			eng.G(f, `lookupBatchTokenInternal\(\)#0\.Parent == ""$`, true),
-			eng.G(f, `^vault\.\(\*TokenStore\)\.Lookup\(\)#0 == nil$`, false)), nil)
-	}
+	// ---------------- C02.2 token liveness on every lookup path (shared with C04.5 and C19.5)
+	tokenLiveness(c, "C02.2")
 
 	// ---------------- C02.3 login requests
 	if f := c.Fn("vault.(*Core).handleCancelableRequest"); f != nil {
@@ -466,4 +412,66 @@ func mustStatic(c *eng.Ctx, names ...string) eng.CalleeMatcher {
 		c.Unresolved(n)
 	}
 	return m
+}
+
+// tokenLiveness: a revoked, exhausted (NumUses < 0: the pending-revocation
+// tombstone) or expired token never comes back from lookup. Evaluated for
+// C02.2, and for C04.5 / C19.5 which rest on the same reader-side checks.
+func tokenLiveness(c *eng.Ctx, clause string) {
+	if f := c.Fn("vault.(*TokenStore).lookupInternal"); f != nil {
+		c.Clause("R2", clause)
+		var sinks []ssa.Instruction
+		for _, r := range eng.NonNilResultReturns(f, 0) {
+			ret := r.(*ssa.Return)
+			// delegated batch-token return is covered by lookupBatchToken below
+			if ok, _, _ := eng.OriginsMatch(ret.Results[0], `^call:vault\.\(\*TokenStore\)\.lookupBatchToken#0$`); ok {
+				continue
+			}
+			if _, isPhi := ret.Results[0].(*ssa.Phi); isPhi {
+				continue // handled through the phi edges below
+			}
+			sinks = append(sinks, r)
+		}
+		retEdges := eng.PhiEdgeSinks(f, "ret", func(v ssa.Value) bool { return !eng.IsNilConst(v) })
+		c.Floor(f, "ret = entry assignments", len(retEdges), 1)
+		all := append(append([]ssa.Instruction{}, sinks...), retEdges...)
+		c.Floor(f, "entry-returning exits", len(all), 2)
+		c.Cut(f, "exit returning a token entry", all, eng.Or(eng.G(f, `\.NumUses < 0$`, false), eng.G(f, `^tainted$`, true)), nil)
+		c.Cut(f, "ret = entry (expiring token)", retEdges, eng.Or(eng.G(f, `^time\.\(Time\)\.Before\(\)$`, false), eng.G(f, `^tainted$`, true)), nil)
+		c.Cut(f, "ret = entry (expiring token)", retEdges, eng.G(f, `FetchLeaseTimesByToken\(\)#0 == nil$`, false), nil)
+		c.Cut(f, "ret = entry (expiring token)", retEdges, eng.GCallOK(f, `vault\.\(\*ExpirationManager\)\.FetchLeaseTimesByToken$`), nil)
+		// the non-expiring fast path requires the root policy and TTL == 0
+		c.Cut(f, "fast-path return of the entry", sinks, eng.G(f, `\.TTL == 0$`, true), nil)
+		c.Cut(f, "fast-path return of the entry", sinks, eng.G(f, `\.Policies\[0\] == "root"$`, true), nil)
+		// le == nil: revoke and do not return the entry
+		c.Clause("R4", clause)
+		noLease := eng.CondEdges(f, `FetchLeaseTimesByToken\(\)#0 == nil$`, true)
+		c.NilResultOnEdges(f, "token has no lease", noLease, 0, "token entry")
+		succ := eng.SuccessReturns(f, 1)
+		revoke := instrsOf(eng.Calls(f, `vault\.\(\*ExpirationManager\)\.Revoke$`))
+		if len(noLease) > 0 {
+			if h := eng.Reach(eng.Query{Fn: f, StartEdges: noLease, Barriers: revoke, Target: eng.IsTarget(succ)}); h != nil {
+				c.Violation(f, "on{token has no lease} revoke before nil-error return", h.Instr.Pos(), "a nil-error return is reachable for a lease-less expiring token without calling expiration.Revoke", h.Witness)
+			} else {
+				c.OK(f, "on{token has no lease} revoke before nil-error return", revoke[0].Pos(), "every nil-error return on the no-lease arm is preceded by expiration.Revoke")
+			}
+		}
+		// the compared time is the lease's expire time
+		c.Clause("R5", clause)
+		for _, b := range eng.Calls(f, `^time\.\(Time\)\.Before$`) {
+			c.Prov(f, "expiry compared", b, b.Common().Args[0], `FetchLeaseTimesByToken.*ExpireTime`)
+			c.Prov(f, "expiry compared with now", b, b.Common().Args[1], `^call:time\.Now$`)
+		}
+	}
+	if f := c.Fn("vault.(*TokenStore).lookupBatchToken"); f != nil {
+		c.Clause("R2", clause)
+		sinks := eng.NonNilResultReturns(f, 0)
+		c.Floor(f, "entry-returning exits", len(sinks), 1)
+		c.Cut(f, "return of a batch token entry", sinks, eng.G(f, `^time\.\(Time\)\.After\(\)$`, false), nil)
+		c.Cut(f, "return of a batch token entry", sinks, eng.GCallOK(f, `vault\.\(\*TokenStore\)\.lookupBatchTokenInternal$`), nil)
+		c.Cut(f, "return of a batch token entry", sinks, eng.Or(
+			eng.G(f, `lookupBatchTokenInternal\(\)#0\.Parent == ""$`, true),
+			eng.G(f, `^vault\.\(\*TokenStore\)\.Lookup\(\)#0 == nil$`, false)), nil)
+	}
+
 }
